@@ -619,8 +619,11 @@ func (hc *connectStreamingHandlerConn) Spec() Spec {
 
 func (hc *connectStreamingHandlerConn) Receive(msg any) error {
 	if err := hc.unmarshaler.Unmarshal(msg); err != nil {
-		// Clients may not send end-of-stream metadata, so we don't need to handle
-		// errSpecialEnvelope.
+		if errors.Is(err, errSpecialEnvelope) {
+			// Clients may not send end-of-stream metadata. The sentinel wraps
+			// io.EOF, so passing it on would look like a clean end of the request.
+			return errorf(CodeInvalidArgument, "protocol error: client sent an end-of-stream envelope")
+		}
 		return err
 	}
 	return nil // must be a literal nil: nil *Error is a non-nil error
